@@ -5,6 +5,7 @@
 //@ replace memcpy
 //@ replace XMLStringPool_addOrFind
 //@ cbmc all --unsigned-overflow-check
+//@ timeout quick=900 thorough=1800
 //@ entry h_elemstack_addGlobalPrefix
 //@ note loop-free; the global row is created on first use (`new StackElem` = harness-prepared fresh row); map capacity 0 or 4..2^40; real body of expandMap inlined, memcpy replaced by its C11 contract, XMLStringPool::addOrFind contract-only
 #define VERIF_DEFINE_GHOSTS
